@@ -43,7 +43,7 @@ REAL_VS_STUB = {
 }
 TIERS = {
     "quick": {"runs": 46384, "budget_s": 50, "chunk": 250, "det_pairs": 64, "fresh": 8},
-    "thorough": {"runs": 900000, "budget_s": 900, "chunk": 500, "det_pairs": 512, "fresh": 32},
+    "thorough": {"runs": 900000, "budget_s": 900, "chunk_timeout": 900, "chunk": 500, "det_pairs": 512, "fresh": 32},
 }
 
 LATTICE_FRAMES = {"quick": 3, "thorough": 4}
